@@ -17,7 +17,7 @@ PURE = {
 
 # id -> (technique, level text, level note, design ref)
 CLAIMED = {
- "C05": ("deterministic simulation: real framer/deframer over a simulated stream with seeded segmentation, delays, back-pressure, EOF/reset/over-long-length faults; exhaustive chunkings of short streams; reference = list of messages written",
+ "C05": ("deterministic simulation: real framer/deframer over a simulated stream with seeded segmentation, delays, back-pressure, EOF/reset/over-long-length faults, writes refused for want of a stream; exhaustive chunkings of short streams; reference = list of messages written",
          "Seeded search over (message sequence, chunking, delay, fault) runs of the real framing code on a simulated socket and paused clock; each run is checked against the list of messages written and the protocol framing written independently. Sampling, not proof; every chunking of streams up to 14 bytes is enumerated inside runs of kind 'exhaustive'.",
          "Trusted: tokio (paused clock, current-thread scheduler), the simulator's pipe model of TCP (ordered, unmodified bytes until close/reset), the counting allocator for the allocation bound.",
          "DESIGN.md section 3, C05"),
@@ -28,19 +28,19 @@ CLAIMED.update({
          "Seeded search over (cookie, names, flags, timeout, network behaviour, 1..3 attempts with at most one peer deviation each) on the real connect path, and over 3..12-step API histories checked step by step against a reference model that remembers the challenge issued since the last disconnect. Oracle: connected only with proof; flags are the intersection; emitted handshake bytes parse with an independent reader; non-conforming peers end in an error within the timeout of the deviation. Sampling, not proof.",
          "Trusted: tokio paused clock and scheduler, md-5 primitive, the simulator's peer model and handshake layouts (written from the protocol documents), EPMD stub conforms.",
          "DESIGN.md section 3, C04"),
- "C17": ("deterministic simulation: concurrent rpc_call* on a real Node against a simulated rex that delays, reorders, duplicates, drops and misaddresses replies; connection faults (peer close/reset, write error); calls to a second, fault-free node interleaved; seeded yield points around the outstanding-call table; history oracle + table inspected at quiescence",
-         "Seeded search over (1..8 callers x 1..4 calls, per-call reply behaviour and delay relative to the caller's timeout, network behaviour, yield-point subset, optional connection fault). Oracle over the recorded history: every Ok is a reply the peer addressed to that call's own reply pid, no reply is returned twice, error kinds are admissible for what was injected, the outstanding-call table is empty at quiescence, a fresh call succeeds once faults stopped. Sampling, not proof.",
+ "C17": ("deterministic simulation: concurrent rpc_call* on a real Node against a simulated rex that delays, reorders, duplicates, drops and misaddresses replies; connection faults (peer close/reset, write error); the listed connection closed by the application itself; calls to a second, fault-free node interleaved; calls given up by their callers; crowds of 100..300 outstanding calls; seeded yield points around the outstanding-call table; history oracle + table inspected at quiescence",
+         "Seeded search over (1..8 callers x 1..4 calls - at times one caller x 70..140 or 100..300 callers x 1 -, per-call reply behaviour and delay relative to the caller's timeout, timeouts from 0 ms to Duration::MAX, calls dropped by their callers once the peer holds the request, another user of the connection holding its mutex until just before a queued call's timeout, network behaviour, yield-point subset, optional connection fault). Oracle over the recorded history: every Ok is a reply the peer addressed to that call's own reply pid, no reply is returned twice, error kinds are admissible for what was injected, the outstanding-call table holds nothing at quiescence for any call that returned (entries of calls their callers dropped and the peer never answered are counted, not judged), a fresh call succeeds once faults stopped. Sampling, not proof.",
          "Trusted: tokio (paused clock, oneshot, Mutex), dashmap, the rex/peer model and its independent frame reader; single runtime thread per run (interleavings only at await/yield points).",
          "DESIGN.md section 3, C17"),
  "C19": ("deterministic simulation: scripted peer sends inbound frame sequences (routable, unroutable, undecodable, ticks, quiet gaps up to 10 simulated minutes, over-long length, premature close, reset) to a real Node with recorder processes under simulated time, in a third of the runs with a second, well-behaved node connected to the same Node at the same time; routing history and connections() membership over time are checked",
          "Seeded search over inbound frame scripts x recipients (live, dead, never existing, registered/unregistered names, outstanding rpc) x tick period x network behaviour x fatal event x reconnect. Oracle: per-recipient delivered sequence equals the script's expectation exactly (fields intact, order, exactly once); at every checkpoint before a fatal event the connection is registered and a probe rpc gets through; after a fatal event it is deregistered within a bound; reconnect works; the second node's messages, outstanding call and connection are untouched by whatever the first peer does. Sampling, not proof.",
          "Trusted: tokio paused clock/scheduler, the peer script and its independent encoder; mid-frame delays are kept below the read timeout.",
          "DESIGN.md section 3, C19"),
- "C07": ("deterministic simulation: 1..6 tasks send through one real Node/Connection over a simulated socket whose writes are short and stall between the partial writes of a frame; an independent protocol reader on the peer end parses the byte stream; write-error and peer-close faults, the peer going away and the application connecting again",
-         "Seeded search over (operation sequences with seeded arguments, both framing modes, task count, write perturbation, optional fault). Oracle from the peer's independent reader: the stream is a sequence of whole frames in the negotiated mode; frames and operations that returned Ok are in bijection; each frame carries the protocol's control tuple for the operation and exactly the given payload; per task, frames appear in issue order; operations before the handshake write nothing. Sampling, not proof.",
+ "C07": ("deterministic simulation: 1..6 tasks send through one real Node/Connection over a simulated socket whose writes are short and stall between the partial writes of a frame; an independent protocol reader on the peer end parses the byte stream; write-error and peer-close faults, the peer going away and the application connecting again; in a third of the node-level runs a second, well-behaved node with a reader of its own",
+         "Seeded search over (operation sequences with seeded arguments, both framing modes, task count, write perturbation, optional fault). Oracle from the peer's independent reader: the stream is a sequence of whole frames in the negotiated mode; frames and operations that returned Ok are in bijection; each frame carries the protocol's control tuple for the operation and exactly the given payload; per task, frames appear in issue order; operations before the handshake write nothing; with two nodes connected each reads exactly the frames of the operations that name its processes. Sampling, not proof.",
          "Trusted: tokio, the simulator's independent frame/header/term reader (written from the protocol documents), payload sub-space of DESIGN 2.4.",
          "DESIGN.md section 3, C07"),
- "C18": ("deterministic simulation: seeded histories of send/send_to_name/register/unregister/whereis/link/unlink/monitor/demonitor/process failure from several tasks on a real Node with instrumented process handlers, yield points at registry and exit-propagation steps; history oracles + linearizability check of the name table against a sequential map; GenServer/GenEvent call/cast/notify dispatch",
+ "C18": ("deterministic simulation: seeded histories of send/send_to_name/register/unregister/whereis/link/unlink/monitor/demonitor/process failure from several tasks on a real Node with instrumented process handlers, yield points at registry and exit-propagation steps; history oracles + linearizability check of the name table against a sequential map; GenServer/GenEvent call/cast/notify dispatch; crowds of 17..150 watchers around one failing process",
          "Seeded search over operation histories x task interleavings (await points, handler stalls, yield points in the mailbox loop, exit propagation and registry removal). Oracles over the recorded history stamped with one global sequence: exactly-once in-order delivery per (sender, process) with the prefix rule for failed targets; exactly one exit / monitor notice per link / monitor in force at the failure, none after a completed unlink / demonitor, none spurious; terminated identifiers do not resolve; per-name register/unregister/whereis history (with the death of the owner as one removal inside the death interval) is linearizable against a map; behaviours answer each call once to its caller. Sampling, not proof.",
          "Trusted: tokio (mpsc, RwLock, paused clock); link/unlink on a pair and monitor/demonitor on a (watcher,target) pair are issued by one task so their order is known; single runtime thread per run.",
          "DESIGN.md section 3, C18"),
@@ -48,7 +48,7 @@ CLAIMED.update({
          "Seeded search over (sequences, cut positions, delivery permutation, duplicates, drops, out-of-range ids, time between deliveries, cleanup calls) plus exhaustive arrival orders of single sequences. Oracle: Some(result) exactly at the delivery that completes the model's record, None elsewhere; result classified as original / ascending-id concatenation (known finding) / other; pending_count and cleanup_expired agree with the model. Sampling plus small exhaustive enumerations, not proof.",
          "Trusted: tokio paused clock; the simulator's fragmenter (numbers fragments N..1 in stream order as the protocol document prescribes).",
          "DESIGN.md section 3, C09"),
- "C16": ("deterministic simulation of thread schedules: real PidAllocator::allocate and Node::make_reference on shuttle threads (std Mutex/atomics switched to shuttle's under a cfg): DFS over every schedule for 2-thread configurations, seeded random and PCT schedules for up to 4 threads x 3 calls, counters started at 1 / around the 2^20 wrap / before the serial's 32-bit wrap; single-thread multi-wrap history and long reference history; plus node-level histories on the simulated network (identifiers from spawn, reply identifiers of remote calls as the peer sees them, references from monitor; calls before start, EPMD handing out the creation already in force, failed and timed-out calls)",
+ "C16": ("deterministic simulation of thread schedules: real PidAllocator::allocate and Node::make_reference on shuttle threads (std Mutex/atomics switched to shuttle's under a cfg): DFS over every schedule for 2-thread configurations, seeded random and PCT schedules for up to 4 threads x 3 calls, counters started at 1 / around the 2^20 wrap / before the serial's 32-bit wrap; single-thread multi-wrap history and long reference history; plus node-level histories on the simulated network (identifiers from spawn, reply identifiers of remote calls as the peer sees them, references from monitor; calls before start, EPMD handing out the creation already in force, failed and timed-out calls, a call that fails after a whole lap of the number space went by while it waited)",
          "Every explored schedule ends with the oracle: all returned (number, serial) pairs pairwise distinct, every identifier carries the creation set before the threads started, all reference word-vectors and words pairwise distinct. The 2x1 configurations are enumerated exhaustively by shuttle's DFS scheduler (reported per configuration with exhausted=true/false); larger ones are sampled by seeded random and PCT schedulers; failing schedules are persisted and replayed with shuttle::replay_from_file. Sampling plus small exhaustive enumerations, not proof.",
          "Trusted: shuttle (treats all atomic orderings as SeqCst: weak-memory effects are not explored), the shadow manifests build the same sources as /repo.",
          "DESIGN.md section 3, C16"),
